@@ -33,6 +33,14 @@ def replay_symmetrize(n):
     return {"reproduced": r is not None, "observed": r}
 
 
+def replay_place():
+    for s in range(12):
+        r = run_case({"kind": "place", "n": 6 + s % 4, "seed": 100 + s, "rot": s, "fold": 2})
+        if r is not None:
+            return {"reproduced": True, "input": {"kind": "place", "seed": 100 + s}, "observed": r}
+    return {"reproduced": False, "input": "12 placement cases", "observed": None}
+
+
 def gen_cases(seed, n_cases, maxbox=9):
     rng = np.random.default_rng(seed + 1414)
     kinds = ["cube", "inverse", "window", "place", "symm", "pad_crop", "angles_vs_rotation"]
